@@ -1130,6 +1130,14 @@ def m_assume_init_value(E, st, fid, t, args, dest_ty):
     return ret(st, ('opq', ('assume_init',)))
 
 
+@model('core::mem::drop', 'drops its argument (destructor / drop glue of the value)')
+def m_mem_drop(E, st, fid, t, args, dest_ty):
+    out = []
+    for kind, s in E.drop_value(st, args[0], t['effects']):
+        out.append((kind, s, UNIT if kind == 'ret' else None))
+    return out
+
+
 @model(['core::ptr::drop_in_place'], 'UNSAFE: drop_in_place of a slot pointer == assume_init_drop (O2)')
 def m_drop_in_place(E, st, fid, t, args, dest_ty):
     tg = _raw_target(E, st, args[0], 'drop_in_place')
